@@ -580,10 +580,16 @@ class XDataset:
         return iter([k for k in self._vars if k not in self._coord_names])
 
     def _getattr(self, name):
-        if name == 'ems':
-            return core.ctx().accessor(self)
-        if name == '_emsarray_state':
-            return core.ctx().state_accessor(self)
+        fns = getattr(core.ctx(), 'accessor_fns', None) or {}
+        if name in fns:
+            # XR-ACCESSOR-CACHE: one accessor object per Dataset object, built on first access and cached;
+            # copies start with an empty cache
+            used('XR-ACCESSOR-CACHE')
+            if name not in self._accessors:
+                self._accessors[name] = fns[name](self)
+            return self._accessors[name]
+        if name in ('ems', '_emsarray_state'):
+            raise Unsupported(f'Dataset.{name}: accessors not provided by the scenario')
         try:
             return object.__getattribute__(self, name)
         except AttributeError:
